@@ -23,12 +23,15 @@ def _root_.JsightVerif.Model.Tree.kids {α} : Tree α → List (Tree α)
 
 /-! ### errors -/
 
-def kwErr (d : Dir) (msg : String) : PErr := ⟨msg, d.file, d.kwBegin, d.trace, []⟩
+def kwErr (d : Dir) (msg : String) : PErr := ⟨msg, d.file, d.kwBegin, d.trace, [], false⟩
+
+/-- where the Go code would dereference a nil pointer (`c.Info.Title`, `d.Parent.Type()`): a crash, not an error -/
+def nilDeref (d : Dir) (what : String) : PErr := ⟨what, d.file, d.kwBegin, d.trace, [], true⟩
 
 /-- Directive.BodyError -/
 def bodyErr (d : Dir) (msg : String) : PErr :=
   match d.body with
-  | some (f, b, e) => if e != 0 then ⟨msg, f, b, d.trace, []⟩ else kwErr d msg
+  | some (f, b, e) => if e != 0 then ⟨msg, f, b, d.trace, [], false⟩ else kwErr d msg
   | none => kwErr d msg
 
 def mAnnForbidden := "the annotation is not allowed for this directive"
@@ -298,6 +301,7 @@ structure BSt where
   similar : List (Bytes × Bytes) := []
   opIds : List Bytes := []
   banned : List Kind := []
+  raw : List (Bytes × Dir) := []        -- rawUserTypes: name ↦ the last TYPE directive with that name
 
 def Cat.findInter (c : Cat) (id : Bytes) : Option Inter := c.inters.find? (·.id == id)
 
@@ -726,6 +730,19 @@ def addResponse (s : BSt) (d : Dir) (anc : List Dir) : Except PErr BSt :=
           else if d.kind == .Body then .error (kwErr d mBodyEmpty)
           else .ok { s with cat := markResponse s.cat d id }
 
+/-- which handler of core/build_catalog_directives.go each arm of `addDirective` transcribes; compared
+    with the regenerated dispatch table (`directiveFunctions` of core/core.go) in Props/C02 -/
+def handlerName : Kind → Option String
+  | .Jsight => some "addJSight" | .Info => some "addInfo" | .Title => some "addTitle" | .Version => some "addVersion"
+  | .Description => some "addDescription" | .Server => some "addServer" | .BaseURL => some "addBaseUrl"
+  | .Type => some "addType" | .URL => some "addURL"
+  | .Get | .Post | .Put | .Patch | .Delete => some "addHTTPMethod"
+  | .Query => some "addQuery" | .Request => some "addRequest" | .HTTPResponseCode => some "addResponse"
+  | .Headers => some "addHeaders" | .Body => some "addBody" | .Protocol => some "addProtocol"
+  | .Method => some "addJsonRpcMethod" | .Params => some "addJsonRpcParams" | .Result => some "addJsonRpcResult"
+  | .OperationID => some "addOperationID"
+  | _ => none
+
 /-- one directive; `anc` = ancestors innermost first, `kids` its children, `parentKids` its siblings incl. itself,
     `before` = the siblings before it -/
 def addDirective (s : BSt) (d : Dir) (kids : List DT) (anc : List Dir) (parentKids before : List DT) : Except PErr BSt :=
@@ -751,7 +768,7 @@ def addDirective (s : BSt) (d : Dir) (kids : List DT) (anc : List Dir) (parentKi
     else if d.ann != [] then .error (kwErr d mAnnForbidden)
     else
       match c.info with
-      | none => .error (kwErr d "PANIC: Info is nil")
+      | none => .error (nilDeref d "Info is nil")
       | some i => if i.title != [] then .error (kwErr d mNotUnique) else .ok { s with cat := { c with info := some { i with title := t } } }
   | .Version =>
     let v := d.namedParam "Version"
@@ -759,7 +776,7 @@ def addDirective (s : BSt) (d : Dir) (kids : List DT) (anc : List Dir) (parentKi
     else if d.ann != [] then .error (kwErr d mAnnForbidden)
     else
       match c.info with
-      | none => .error (kwErr d "PANIC: Info is nil")
+      | none => .error (nilDeref d "Info is nil")
       | some i => if i.version != [] then .error (kwErr d mNotUnique) else .ok { s with cat := { c with info := some { i with version := v } } }
   | .OperationID =>
     let id := d.namedParam "OperationId"
@@ -799,11 +816,17 @@ def addDirective (s : BSt) (d : Dir) (kids : List DT) (anc : List Dir) (parentKi
   | .Type =>
     let name := d.namedParam "Name"
     if name == [] then .error (kwErr d (mRequired "Name"))
-    else if c.types.any (·.1 == name) then .error (kwErr d mDuplicate)
     else
-      match notationOf (d.namedParam "SchemaNotation") with
-      | none => .error (kwErr d "unknown notation")
-      | some n => .ok { s with cat := { c with types := c.types ++ [(name, d.ann, n)] } }
+      -- the schema kept for a name is that of the last TYPE directive with it: another notation there
+      -- means the name is declared twice (fix 0aaa9b7; before it the Go code panicked here)
+      match (s.raw.lookup name).filter (fun last => notationOf (last.namedParam "SchemaNotation") != notationOf (d.namedParam "SchemaNotation")) with
+      | some last => .error (kwErr last mDuplicate)
+      | none =>
+        if c.types.any (·.1 == name) then .error (kwErr d mDuplicate)
+        else
+          match notationOf (d.namedParam "SchemaNotation") with
+          | none => .error (kwErr d "unknown notation")
+          | some n => .ok { s with cat := { c with types := c.types ++ [(name, d.ann, n)] } }
   | .URL =>
     if d.ann != [] then .error (kwErr d mAnnForbidden)
     else
@@ -861,7 +884,7 @@ def addDirective (s : BSt) (d : Dir) (kids : List DT) (anc : List Dir) (parentKi
     else if !d.bodyIsSet then .error (kwErr d mBodyEmpty)
     else
       match anc with
-      | [] => .error (kwErr d "PANIC: Parent is nil")
+      | [] => .error (nilDeref d "Parent is nil")
       | par :: _ =>
         if par.kind == .Request then
           match httpId (d :: anc) with
@@ -890,7 +913,7 @@ def addDirective (s : BSt) (d : Dir) (kids : List DT) (anc : List Dir) (parentKi
         else .error (kwErr d "incorrect context for the directive")
   | .Body =>
     match anc with
-    | [] => .error (kwErr d "PANIC: Parent is nil")
+    | [] => .error (nilDeref d "Parent is nil")
     | par :: _ =>
       if !par.named.isEmpty && par.kind != .Macro then .error (kwErr par "the directive should not have parameters in this case")
       else if par.kind == .Request then addRequest s d anc
@@ -944,11 +967,11 @@ def addDescriptionText (s : BSt) (d : Dir) (anc : List Dir) (content : Bytes →
       else
         let c := s.cat
         match anc with
-        | [] => .error (kwErr d "PANIC: Parent is nil")
+        | [] => .error (nilDeref d "Parent is nil")
         | par :: _ =>
           if par.kind == .Info then
             match c.info with
-            | none => .error (kwErr d "PANIC: Info is nil")
+            | none => .error (nilDeref d "Info is nil")
             | some i => if i.desc.isSome then .error (kwErr d mNotUnique) else .ok { s with cat := { c with info := some { i with desc := some text } } }
           else if isHTTPMethod par.kind then
             match httpId (d :: anc) with
@@ -1052,11 +1075,11 @@ def build (roots : List DT) (rootFile : Bytes) (banned : List Kind) (content : B
   | .error e => .error e
   | .ok () =>
   match expanded with
-  | [] => .error ⟨mJsightFirst, rootFile, 0, [], []⟩
+  | [] => .error ⟨mJsightFirst, rootFile, 0, [], [], false⟩
   | first :: _ =>
   if first.dir.kind != .Jsight then .error (kwErr first.dir mJsightFirst)
   else
-  match addList content expanded [] expanded [] { cat := { tags := tags, enums := enums }, banned := banned } with
+  match addList content expanded [] expanded [] { cat := { tags := tags, enums := enums }, banned := banned, raw := collectRawTypes expanded [] } with
   | .error e => .error e
   | .ok s =>
   match validate s.cat with
